@@ -311,9 +311,9 @@ def main(prop, tier, replay, njobs):
         print("KNOWN-FINDING: property=%s %s (class %s, %d cases this run)" % (prop, kf.get("what", ""), cls, n))
 
     level = spec["level"]
-    transitions = stats.get("transitions", stats.get("evaluations", 0))
+    transitions = stats.get("transitions", 0) or stats.get("evaluations", 0)
     cov = {
-        "evaluations": stats.get("evaluations", transitions),
+        "evaluations": transitions if level == "model_checking" else stats.get("evaluations", transitions),
         "distinct_nontrivial": stats.get("nontrivial", stats.get("states", 0)),
         "rule": spec["rule"],
         "samples": samples[:12] or ["(none)"],
